@@ -6,8 +6,12 @@
 //!                                          units, entries of `.symtab` in table order (`x<hex demangled name>:<kind>:<st_value>`),
 //!                                          `none` = no `.symtab`; read by `elf_facts` below, NOT by the debugger
 //!   C17 symobjs                            the objects of the registry: sorted `x<file name>:<has DWARF>`
-//!   C17 sym <alt>,<alt>..                  `symbol <regex>`; an alternative is `<^?><$?>x<hex literal>`; the implementation
-//!                                          gets the rendered regex (literals escaped); answer: sorted `name:kind:addr`
+//!   C17 sym <alt>,<alt>.. <mapped>         `symbol <regex>`; an alternative is `<^?><$?>x<hex literal>`; the implementation
+//!                                          gets the rendered regex (literals escaped); answer: sorted `name:kind:addr`.
+//!                                          <mapped> is REWRITTEN by `exec`: the file names of the ELF objects the process has
+//!                                          mapped (ld.so's list before the start); when the `symobj` lines so far do not declare
+//!                                          exactly these objects, both sides answer `objects-not-declared` (so the shrinker
+//!                                          cannot cut the model's registry away from under a query)
 //!   C17 symrun <template>                  break at the function, start / continue until it is hit
 //! Everything that spawns a process (ld.so's own list of start-up objects) happens before the debugger exists.
 use crate::util::*;
@@ -292,7 +296,7 @@ fn gen_queries(rng: &mut Rng, out: &mut Out, pools: &[(String, Vec<String>)], n:
         if rng.chance(1, 40) { out.count("sym.alt.everything", 1); alts = vec![Alt { start: false, end: false, lit: String::new() }]; }
         if rng.chance(1, 40) { out.count("sym.alt.empty_name", 1); alts = vec![Alt { start: true, end: true, lit: String::new() }]; }
         out.count(&format!("sym.query.alts{k}"), 1);
-        req.push(format!("C17 sym {}", enc_alts(&alts)));
+        req.push(format!("C17 sym {} -", enc_alts(&alts)));
     }
 }
 
@@ -382,13 +386,14 @@ pub fn sym_session(lines: &[String], emit: &mut dyn FnMut(String)) {
     emit("ok".into());
     let mut started = false;
     let mut dynsym_reported = 0;
+    let mut declared: BTreeSet<String> = BTreeSet::new();
     // the objects the independent side takes as loaded: before the start ld.so's list, afterwards /proc/<pid>/maps
     let mut truth: Vec<PathBuf> = startup.iter().filter(|p| facts.contains_key(*p)).cloned().collect();
     let oracle = |emit: &mut dyn FnMut(String), key: &str, what: String, replay: serde_json::Value| emit(format!("!oracle {}", json!({"key": key, "what": what, "replay": replay})));
     for line in &lines[1..] {
         let t: Vec<&str> = line.split(' ').collect();
         match t.as_slice() {
-            ["C17", "symobj", _f, "0" | "1", _tab] => emit("ok".into()),
+            ["C17", "symobj", f, "0" | "1", _tab] => { declared.insert(f.to_string()); emit("ok".into()) }
             ["C17", "symrun", tpl] => {
                 let tpl = dec_str(tpl);
                 let set = dbg.set_breakpoint_at_fn(&tpl).map(|v| v.len()).map_err(|e| e.to_string());
@@ -419,8 +424,11 @@ pub fn sym_session(lines: &[String], emit: &mut dyn FnMut(String)) {
                 }
                 emit(enc_list(&got, |s| s.clone()));
             }
-            ["C17", "sym", a] => {
+            ["C17", "sym", a, _mapped] => {
                 let Some(alts) = dec_alts(a) else { emit("bad-op".into()); continue };
+                let mapped: BTreeSet<String> = truth.iter().map(|p| enc_str(&base(p))).collect();
+                emit(format!("!req C17 sym {a} {}", enc_list(&mapped.iter().cloned().collect::<Vec<_>>(), |s| s.clone())));
+                if mapped != declared { emit("objects-not-declared".into()); continue; }
                 let re = render(&alts);
                 let got: Vec<Sym> = match dbg.get_symbols(&re) {
                     Ok(v) => v.iter().map(|s| Sym { name: s.name.to_string(), kind: kind_code(&format!("{:?}", s.kind)), addr: u64::from(s.addr) }).collect(),
